@@ -169,6 +169,28 @@ pub struct QmcSpec {
     pub hb: bool,
 }
 
+impl BondSpec {
+    /// The documented matrix element, computed from the table the user supplied and NOT through the
+    /// library's own lookup: full matrices are indexed (outs << k | ins), diagonal tables give the entry
+    /// for ins == outs and 0 otherwise; the offset constructors subtract the minimum entry first.
+    pub fn weight(&self, ins: &[bool], outs: &[bool]) -> f64 {
+        let k = self.vars.len();
+        let min = self.mat.iter().cloned().fold(f64::INFINITY, f64::min);
+        let off = if self.kind % 2 == 1 { min } else { 0.0 };
+        if self.kind < 2 {
+            self.mat[(idx_of(outs) << k) | idx_of(ins)] - off
+        } else if ins == outs {
+            self.mat[idx_of(ins)] - off
+        } else {
+            0.0
+        }
+    }
+    /// the "constant" flag: a full matrix with all entries equal
+    pub fn is_constant(&self) -> bool {
+        self.kind < 2 && self.mat.iter().all(|x| *x == self.mat[0])
+    }
+}
+
 impl QmcSpec {
     pub fn coq(&self) -> String {
         cq::list(&self.bonds, |b| format!("({}%nat, {}, {})", b.kind, cq::qs(&b.mat), cq::nats(&b.vars)))
@@ -239,6 +261,14 @@ pub fn random_qmc(rng: &mut SplitMix64) -> QmcSpec {
             // an accepted term on NO variables (a pure energy shift): loops may start on it
             if rng.chance(1, 4) {
                 bonds.push(BondSpec { kind: 2, mat: vec![d(rng)], vars: vec![] });
+            }
+            // a diagonal table with equal entries on two or three variables (an energy shift): loops visit
+            // its vertices and must find weight 0 for every spin-flipping exit
+            if nvars >= 2 && rng.chance(1, 3) {
+                let k = if nvars >= 3 && rng.chance(1, 2) { 3 } else { 2 };
+                let vs = pick_distinct(rng, nvars, k);
+                let c = d(rng);
+                bonds.push(BondSpec { kind: 2, mat: vec![c; 1 << k], vars: vs });
             }
         }
         1 => {
